@@ -18,7 +18,7 @@ from .. import cover, emmon, gen, monitors, ref
 LEVEL = 'exploration'
 JOBS = {'quick': 4, 'thorough': 16}
 REQUIRED_MONITORS = ('em_law_contract', 'equivalences_vs_nearest_anchor')
-REQUIRED_CLASSES = ('reference:through-the-parsers', 'geometry:generic', 'geometry:linear-z', 'geometry:linear-x', 'geometry:linear-int',
+REQUIRED_CLASSES = ('reference:through-the-parsers', 'reference:bonds-with-colliding-number-strings', 'geometry:generic', 'geometry:linear-z', 'geometry:linear-x', 'geometry:linear-int',
                     'geometry:linear-moved', 'geometry:partial-collinear', 'geometry:planar-xy', 'geometry:lattice',
                     'anchor:collinear', 'anchor:generic', 'scale:one', 'scale:uniform', 'placement:far',
                     'placement:on-atoms', 'shipped-pair', 'sequence:construction-object-after-other-calls')
@@ -60,6 +60,8 @@ def cases(ctx):
         if ctx.tier == 'quick' and pair[0].startswith('DNA'):
             continue
         yield {'kind': 'shipped', 'pair': k}
+    for k in range(2 if ctx.tier == 'quick' else 40):
+        yield {'kind': 'bigfile', 'i': k}
 
 
 def check_equivalences(ctx, emap, model, w):
@@ -196,5 +198,51 @@ def run_shipped(ctx, case):
         ctx.sample({'shipped_pair': label, 'n_ref': len(a), 'n_target': len(b)})
 
 
+def run_bigfile(ctx, case):
+    """A reference of 120..160 atoms read from an .itp / .gro pair numbered 1..n: a ring closed by the bond (1, 112)
+    beside the chain bond (11, 12) - two bonds whose atom numbers, written one after the other, read the same - with
+    target atoms around the atoms those bonds make anchors.  Judged against the generator's own bond graph."""
+    import tempfile
+    from gaddlemaps import ExchangeMap
+    from gaddlemaps.components import Molecule
+    rng = ctx.rng('bigfile', case['i'])
+    n = int(rng.integers(120, 161))
+    edges = sorted(set(gen.chain(n)) | {(0, 111)} | {(int(a), int(b)) for a, b in [sorted(rng.choice(n, 2, replace=False)) for _ in range(int(rng.integers(0, 4)))]})
+    for _ in range(20):
+        pos = gen.embed_graph(rng, n, edges)
+        if emmon.frames_ok(n, edges, np.round(pos, 3)) and gen.min_pair_distance(np.round(pos, 3)) > 1e-3:
+            break
+    else:
+        ctx.count('rejected_illconditioned_reference')
+        return
+    names = gen.atom_names(n, 'B')
+    with tempfile.TemporaryDirectory(prefix='gmv_c01_') as d:
+        itp, gro = os.path.join(d, 'big.itp'), os.path.join(d, 'big.gro')
+        atoms = gen.simple_itp_atoms(names, ['BIG'] * n, [1] * n)
+        gen.write_itp(itp, 'BIG', atoms, [('bonds', [(a + 1, b + 1) for a, b in edges])])
+        gen.write_gro(gro, 'big', [(1, 'BIG', names[k], k + 1, tuple(float('%.3f' % x) for x in pos[k]), None) for k in range(n)], (60.0, 60.0, 60.0))
+        try:
+            refm = Molecule.from_files(gro, itp)
+        except Exception as exc:  # noqa
+            ctx.violation(f'reference-not-loadable:{type(exc).__name__}', str(exc)[:200])
+            return
+    object.__setattr__(refm, '_gmv_true_edges', [tuple(e) for e in edges])
+    rpos = np.array(refm.atoms_positions)
+    hot = [0, 10, 11, 111]
+    tpos = np.concatenate([rpos[h] + rng.normal(size=(3, 3)) * 0.03 for h in hot] + [emmon.gen_target(rng, rpos, 'inside', mmax=40)])
+    tgtm = gen.make_molecule('BIG', gen.atom_names(len(tpos), 'C'), gen.random_tree(rng, len(tpos)), tpos)
+    s = float(rng.choice([0.3, 0.5, 1.7]))
+    try:
+        emap = ExchangeMap(refm, tgtm, s)
+        emap(refm)                           # law and shape contracts fire here
+    except Exception as exc:  # noqa
+        ctx.violation(f'map-raises:{type(exc).__name__}:bigfile', str(exc)[:200])
+        return
+    ctx.count('evaluations')
+    ctx.hit('reference:bonds-with-colliding-number-strings')
+    check_equivalences(ctx, emap, emap.__dict__['_gmv_model'], {'n_ref': n, 'edges_extra': [e for e in edges if e[1] - e[0] != 1]})
+    ctx.nontrivial(('bigfile', n, s))
+
+
 def run_case(ctx, case):
-    {'gen': run_gen, 'shipped': run_shipped}[case['kind']](ctx, case)
+    {'gen': run_gen, 'shipped': run_shipped, 'bigfile': run_bigfile}[case['kind']](ctx, case)
